@@ -36,6 +36,7 @@ from nauyaca.server.router import Router, RouteType  # noqa: E402
 
 SPELL = {"/": ["/"], "api": ["api"], "key": ["key", "key;p=1"], "v2": ["v2", "v2%2f", "v2@evil.ex", "v2:8080"], "x": ["x", "..", "%2e%2e", "x y", "ünï"]}
 UPSTREAMS = [("gemini://backend.ex", "backend.ex", 1965, "gemini://backend.ex"),
+             ("gemini://backend.ex/~Alice/Notes%20A", "backend.ex", 1965, "gemini://backend.ex/~Alice/Notes%20A"),
              ("gemini://backend.ex:1966", "backend.ex", 1966, "gemini://backend.ex:1966"),
              ("gemini://backend.ex/base", "backend.ex", 1965, "gemini://backend.ex/base"),
              ("gemini://backend.ex:1966/base/", "backend.ex", 1966, "gemini://backend.ex:1966/base"),
@@ -131,6 +132,62 @@ def make_handler(upstream, prefix, strip, timeout=TIMEOUT):
     return h
 
 
+SIBLING = "/zz-other/"
+
+
+def config_router(upstream, prefix, strip, root, timeout=TIMEOUT):
+    """The router a deployment gets: a TOML file with [[locations]] -> ServerConfig.from_toml -> get_location_router().
+    Besides the location under test there is a sibling proxy location for the SAME upstream with another prefix."""
+    import tempfile
+    from pathlib import Path
+    from nauyaca.client import session as sessmod
+    from nauyaca.server.config import ServerConfig
+    global _CTX
+    text = '[server]\ndocument_root = "%s"\n' % root
+    for pre, st in ((SIBLING, True), (prefix, strip)):
+        text += '\n[[locations]]\nprefix = %s\nhandler = "proxy"\nupstream = %s\nstrip_prefix = %s\ntimeout = %r\n' % (
+            json.dumps(pre), json.dumps(upstream), "true" if st else "false", float(timeout))
+    fd, path = tempfile.mkstemp(prefix="vf-proxy-", suffix=".toml")
+    with os.fdopen(fd, "w") as f:
+        f.write(text)
+    orig = sessmod.create_client_context
+
+    def cached(*a, **kw):
+        global _CTX
+        if _CTX is None:
+            _CTX = orig(*a, **kw)
+        return _CTX
+    sessmod.create_client_context = cached           # building a TLS context per handler is slow and irrelevant here
+    try:
+        cfg = ServerConfig.from_toml(Path(path))
+        router = cfg.get_location_router()
+    finally:
+        sessmod.create_client_context = orig
+        os.unlink(path)
+    if router is None:
+        raise tlc.TLCError("get_location_router() returned None for a configuration with locations")
+    return router
+
+
+def through_router_pair(net, router, urls):
+    """Several downstream connections whose request lines arrive in the SAME event-loop iteration."""
+    conns = []
+    for url in urls:
+        proto = GeminiServerProtocol(router.route, None)
+        tr = FakeTransport(net.loop, proto, auto_lost=True)
+        net.loop.call(proto.connection_made, tr)
+        conns.append(tr)
+    for tr, url in zip(conns, urls):
+        net.loop.call_soon(tr.feed, url.encode("utf-8") + b"\r\n")
+    for _ in range(400):
+        net.loop.run_idle()
+        if all(tr.closing or tr.lost for tr in conns):
+            break
+        if not net.loop.advance_to_next_timer():
+            break
+    return [bytes(tr.wire) for tr in conns]
+
+
 def through_server(net, handler, prefix, url):
     """Real protocol + real Router (PREFIX route) in front of the handler; returns downstream bytes and elapsed virtual time."""
     router = Router()
@@ -174,6 +231,9 @@ def c17(rep, rnd, thorough):
         cases = cases[:8000]
     n = 0
     handlers = {}
+    routers = {}
+    import tempfile
+    root = tempfile.mkdtemp(prefix="vf-proxy-root-")
     for s in cases:
         prefix_t, path_t, strip, q = list(s["prefix"]), list(s["path"]), s["strip"], s["query"]
         if path_t[:len(prefix_t)] != prefix_t:
@@ -190,24 +250,36 @@ def c17(rep, rnd, thorough):
         key = (up[0], prefix, strip)
         net = Net()
         try:
-            h = handlers.get(key) or make_handler(up[0], prefix, strip)
-            handlers[key] = h
             url = "gemini://front.ex" + path + ("?" + query if query else "")
             try:
                 GeminiRequest.from_line(url)
             except ValueError:
                 continue
-            wire, el, tr = through_server(net, h, prefix, url)
-            n += 1
             want_line = (up[3] + mapped + ("?" + query if query else "")).encode("utf-8")
-            grey = False
             bad = []
-            if len(net.conns) != 1 or net.conns[0] != (up[1], up[2]):
+            if n % 2 == 0:
+                # the handler object on its own, behind a router built by hand
+                h = handlers.get(key) or make_handler(up[0], prefix, strip)
+                handlers[key] = h
+                wire, el, tr = through_server(net, h, prefix, url)
+                wires = [wire]
+                want_lines = [want_line]
+            else:
+                # as deployed: TOML -> ServerConfig -> get_location_router(); a request for the sibling location (same
+                # upstream, other prefix) arrives in the same loop iteration
+                router = routers.get(key) or config_router(up[0], prefix, strip, root)
+                routers[key] = router
+                sib = "gemini://front.ex%ssib/x?s=%d" % (SIBLING, n)
+                order = [url, sib] if n % 4 == 1 else [sib, url]
+                wires = through_router_pair(net, router, order)
+                want_lines = [want_line, (up[3] + "/sib/x?s=%d" % n).encode()]
+            n += 1
+            if len(net.conns) != len(want_lines) or any(c != (up[1], up[2]) for c in net.conns):
                 bad.append(("OnlyUpstream", "connected to %s, upstream is %s:%d" % (net.conns, up[1], up[2])))
-            if len(net.lines) != 1 or net.lines[0] != want_line:
-                bad.append(("FaithfulMap", "upstream received %r, property says %r" % (net.lines, want_line)))
-            if not wire.startswith(b"20 "):
-                bad.append(("FaithfulMap", "downstream got %r" % wire[:40]))
+            if sorted(net.lines) != sorted(want_lines):
+                bad.append(("FaithfulMap", "upstream received %r, property says %r" % (net.lines, want_lines)))
+            if any(not w.startswith(b"20 ") for w in wires):
+                bad.append(("FaithfulMap", "downstream got %r" % [w[:40] for w in wires]))
             for formula, why in bad[:1]:
                 rep.violation({"formula": formula, "strip": strip, "prefix": prefix},
                               "%s falsified: location prefix=%r strip=%s upstream=%r request %r: %s" % (formula, prefix, strip, up[0], url, why), None)
@@ -215,6 +287,7 @@ def c17(rep, rnd, thorough):
                 rep.sample({"prefix": prefix, "strip": strip, "upstream": up[0], "request": url, "upstream_request_line": want_line.decode()})
         finally:
             net.close()
+    shutil.rmtree(root, ignore_errors=True)
     rep.add("mapping_cases_replayed", n)
     rep.add("traces_validated_against_impl", n)
     # concrete extras: the authority can never be steered by the request
@@ -268,6 +341,11 @@ def upstream_scripts():
     add("stall-mid-header", b"20 text/gemini", b"x", send_len=7, ends="never")
     add("garbage-header", b"2x text/gemini", b"x", hdr_cls="badStatus")
     add("garbage-header2", b"HTTP/1.1 200 OK", b"x", hdr_cls="badStatus")
+    # garbage whose first token carries bare line breaks / header look-alikes: whatever is quoted in the 43 stays one line
+    add("garbage-lf", b"ERROR\nbad request", b"x", hdr_cls="badStatus")
+    add("garbage-cr", b"ERR\r20 text/gemini", b"x", hdr_cls="badStatus")
+    add("garbage-lf-header", b"\n20 text/gemini\nINJECTED", b"x", hdr_cls="badStatus")
+    add("garbage-long", b"X" * 3000 + b" y", b"x", hdr_cls="badStatus")
     add("bad-utf8-header", b"20 text/\xff\xfe", b"x", hdr_cls="badUtf8")
     add("status-99", b"99 odd", b"x", status=99)
     add("status-05", b"05 odd", b"x", status=5)
@@ -338,8 +416,9 @@ def c18(rep, rnd, thorough):
                 head, sep, body = wire.partition(b"\r\n")
                 up_head, _, up_body = scr["data"][:rec["sendLen"]].partition(b"\r\n")
                 bad = []
-                if not sep or not head[:2].isdigit():
-                    bad.append(("OneOutcome", "downstream got no well-formed response: %r" % wire[:60]))
+                import re as _re
+                if not sep or not _re.fullmatch(rb"[1-6][0-9]( [^\r\n]{0,1024})?", head) or (body and not head.startswith(b"2")):
+                    bad.append(("OneOutcome", "downstream got no well-formed response: %r" % wire[:80]))
                 elif want["k"] == "relay":
                     exp_body = up_body if 20 <= rec["status"] <= 29 else b""
                     if head != up_head or body != exp_body:
